@@ -144,6 +144,15 @@ def gen_plan(prop, r, tier, run):
                         'test_other.py', 'result.txt'])
             by.append({'path': p, 'text': gc.gen_text(r, ident, now, 3),
                        'age': r.pick([0, 0, 5, 3600])})
+    if r.chance(0.3):
+        # the command was run here before: older copies of its own outputs
+        for e in prog['effects']:
+            if e['t'] == 'write' and 'text' in e and \
+                    not e['path'].startswith('$TMPDIR') and r.chance(0.7):
+                by.append({'path': e['path'],
+                           'text': e['text'] if r.chance(0.5)
+                           else gc.gen_text(r, ident, now, 3),
+                           'age': r.pick([5, 3600])})
     # a pre-existing file that the user's own explicit name or glob matches
     # is "named as an output" although the command never writes it: user
     # error, not gentest's -- keep such bystanders out of the workload
